@@ -1,6 +1,6 @@
 SPECIFICATION Spec
 CONSTANTS
-  Families = {"wire"}
+  Families = {"wire", "frac"}
   Big = TRUE
   Faithful = TRUE
 INVARIANTS TypeOK CarriesSame RefIsEncoding DevOnlyWhereViewsDiffer DeviationsConfined DecoderFacts
